@@ -198,6 +198,7 @@ MkTs(y, mo, d, h, mi, sc, us) == Call("make_timestamp", <<y, mo, d, h, mi, sc, u
 TsOfV == MkTs(I_(2021), I_(3), V, I_(5), I_(6), I_(7), I_(0))                       \* the day of the month comes from column v (NULL when there is no such day)
 TsRef == Lit(TsV(<<2021, 3, 4, 5, 6, 7, 0>>))
 TsFrac == Lit(TsV(<<2021, 3, 28, 2, 30, 59, 123456>>))
+TsUs(us) == Lit(TsV(<<2021, 3, 28, 2, 30, 59, us>>))
 IvOfV == Arith("-", TsRef, TsOfV)                                                   \* (4 - v) days
 H130 == Cast(T_(<<49, 58, 51, 48, 58, 48, 48>>), "interval")
 OnRow1 == CmpE("=", V, One)
@@ -209,6 +210,10 @@ CalMenu ==
             P(Cast(Arith("+", IvOfV, H130), "text"), "t"), P(Cast(TsOfV, "text"), "tt")>>, NoE),
    CalSel(<<P(Call("extract_day", <<TsOfV>>), "day"), P(Call("extract_epoch", <<TsOfV>>), "ep"), P(Call("extract_hour", <<Arith("+", TsOfV, Cast(T_(<<49, 57, 58, 48, 48, 58, 48, 48>>), "interval"))>>), "h")>>, NoE),
    CalSel(<<P(CmpE("<", TsOfV, T_(<<50, 48, 50, 49, 45, 48, 51, 45, 48, 50, 32, 48, 53, 58, 48, 54, 58, 48, 55>>)), "lt"), P(CmpE("=", T_(<<50, 48, 50, 49, 45, 48, 51, 45, 48, 50, 32, 48, 53, 58, 48, 54, 58, 48, 55>>), TsOfV), "eq"), P(CmpE(">=", TsOfV, TsRef), "ge")>>, NoE),
+   \* two instants within one millisecond are different instants (comparison, IN, CASE, least / greatest, DISTINCT-able projection)
+   CalSel(<<P(CmpE("=", TsUs(123456), TsUs(123457)), "eq"), P(CmpE("<", TsUs(123456), TsUs(123457)), "lt"), P(CmpE("!=", TsUs(123999), TsUs(123000)), "ne"),
+            P(InE(FALSE, TsUs(123456), <<TsUs(123457), TsUs(123000)>>), "isin"), P(CaseE(<<<<CmpE(">=", TsUs(123456), TsUs(123457)), One>>>>, Two), "c"),
+            P(Call("greatest", <<TsUs(123456), TsUs(123457)>>), "g"), P(Arith("-", TsUs(124000), TsUs(123000)), "d")>>, NoE),
    CalSel(<<P(CmpE("<", TsOfV, T_(<<121, 101, 115, 116, 101, 114, 100, 97, 121>>)), "bad")>>, OnRow1),
    CalSel(<<P(Cast(T_(<<50, 48, 50, 49, 45, 48, 51, 45, 48, 52, 32, 48, 53, 58, 48, 54, 58, 48, 55>>), "timestamp"), "c"), P(CmpE("=", Cast(T_(<<50, 48, 50, 49, 45, 48, 51, 45, 48, 52, 32, 48, 53, 58, 48, 54, 58, 48, 55>>), "timestamp"), TsRef), "same"),
             P(Cast(T_(<<50, 48, 50, 49, 45, 48, 50, 45, 51, 48, 32, 48, 53, 58, 48, 54, 58, 48, 55>>), "timestamp"), "nosuchday")>>, OnRow1),
@@ -383,7 +388,8 @@ LinesNoiseLong == {KV(A, IntV(1)), KV(B, IntV(2)), LongPre(65536), LongPre(8192)
 LinesNoise == {KV(A, IntV(1)), KV(B, IntV(2)), KV(A, Null), KV(Null, IntV(3)), KV(Null, Null), Garbage, Empty, Near}
 LongJoin == [i \in 1..34 |-> IF i % 2 = 0 THEN KV(A, IntV(i)) ELSE KV(B, IntV(i))]
 LongJoinNoise == [i \in 1..34 |-> IF i \in {11, 21, 31} THEN Garbage ELSE IF i % 2 = 0 THEN KV(A, IntV(i)) ELSE KV(B, IntV(i))]   \* non-rows exactly where the flag is sampled
-JoinSetsLong == {LongJoin, LongJoinNoise}
+LongJoinEmpty == [i \in 1..34 |-> IF i \in {11, 21, 31} THEN Empty ELSE IF i \in {12, 22} THEN Near ELSE IF i % 2 = 0 THEN KV(A, IntV(i)) ELSE KV(B, IntV(i))]   \* empty lines exactly where the flag is sampled
+JoinSetsLong == {LongJoin, LongJoinNoise, LongJoinEmpty}
 \* 120 joined lines, three keys interleaved irregularly (partners of one key are scattered; an index built by sorting must be stable), some non-rows
 LongJoinMixed == [i \in 1..120 |-> IF i % 13 = 0 THEN Garbage ELSE IF (i * i) % 7 \in {0, 1} THEN KV(A, IntV(i)) ELSE IF (i * i) % 7 = 2 THEN KV(B, IntV(i)) ELSE KV(TextV(<<99>>), IntV(i))]
 JoinSetsMixed == {LongJoinMixed}
